@@ -786,6 +786,54 @@ def valgrind_run(ctx):
                           key="c02:valgrind-abnormal")
 
 
+def run_as_vectored(ctx, n):
+    """`MutableSubgrid::<f32>::as_vectored` by its definition: the SIMD view exists iff the start is aligned
+    to the vector, and width and stride are multiples of the lane count; every vector cell (vx, vy) is then
+    the `lanes` scalars at (lanes*vx .. , vy) of the sub-grid and nothing else of the buffer"""
+    rng = ctx.rng
+    lines = []
+    for _ in range(n):
+        lanes = rng.choice([4, 4, 8])
+        w = rng.choice([lanes, 2 * lanes, 3 * lanes, rng.randint(1, 40)])
+        h = rng.randint(1, 6)
+        stride = rng.choice([w, w, w + lanes, w + rng.randint(0, 9), ((w + lanes - 1) // lanes) * lanes])
+        off = rng.choice([0, 0, lanes, rng.randint(0, 12)])
+        lines.append(f"vec {lanes} {off} {w} {h} {stride}")
+    for release in (False, True):
+        outs = run_lines_robust([ctx.harness_bin("c02", release=release)], lines, per_line_timeout=20)
+        for l, o in zip(lines, outs):
+            o = o or "crash"
+            _, lanes, off, w, h, stride = l.split()
+            lanes, off, w, h, stride = int(lanes), int(off), int(w), int(h), int(stride)
+            ctx.case(("vec", l, release), nontrivial=True)
+            if o == "unsupported":
+                ctx.count("as_vectored:unsupported-lanes")
+                continue
+            want_some = (off * 4) % (lanes * 4) == 0 and w % lanes == 0 and stride % lanes == 0
+            rep = {"ops": [l], "impl": [o[:400]], "profile": "release" if release else "checked",
+                   "how": "echo '<op>' | harness/target/{debug,release}/c02"}
+            if not (o == "none" or o.startswith("some ")):
+                ctx.violation("as-vectored-crashed", o[:200], rep, key="c02:as_vectored-crash")
+                continue
+            ctx.count("as_vectored:" + o.split()[0])
+            if (o != "none") != want_some:
+                ctx.violation("as-vectored-view-exists-iff-aligned-and-lane-multiple",
+                              f"{l}: answer {o.split(' | ')[0]}, definition says {'some' if want_some else 'none'}", rep,
+                              key="c02:as_vectored-exists")
+                continue
+            if o != "none":
+                head, _, body = o.partition(" | ")
+                vals = list(map(int, body.split()))
+                exp = [0] * len(vals)
+                for y in range(h):
+                    for x in range(w):
+                        exp[off + y * stride + x] = 1000 * y + x // lanes + 1
+                if head.split()[1:] != [str(w // lanes), str(h)] or vals != exp:
+                    bad = next((i for i, (a, b) in enumerate(zip(vals, exp)) if a != b), None)
+                    ctx.violation("as-vectored-view-addresses-other-cells",
+                                  f"{l}: {head}; first differing buffer element {bad}", rep, key="c02:as_vectored-cells")
+
+
 def run(ctx):
     translate(ctx)
     ctx.lean_ok = ctx.lean_build(MODULES)
@@ -802,7 +850,8 @@ def run(ctx):
         "each op is chosen from the implementation's previous answers; non-trivial = at least one assertion failure and "
         "three kinds of geometry ops; both harness builds; (b) every squeeze kernel entry (dispatching, generic, AVX2, "
         "SSE4.1, i32) on all widths 1..130 x heights 1..20, tame data (must equal the scalar kernel) and wild data "
-        "(canaries only), plus RCT kernels; non-trivial = width>16 and height>=8; (c) Bitstream histories. distinct by content")
+        "(canaries only), plus RCT kernels; non-trivial = width>16 and height>=8; (c) Bitstream histories; (d) as_vectored "
+        "(4 and 8 lanes) on seeded offsets / widths / heights / strides against its definition. distinct by content")
     cpu_note(ctx)
     check_pins(ctx)
     if ctx.lean_ok:
@@ -810,6 +859,7 @@ def run(ctx):
     check_transform_type(ctx)
     run_grid_sequences(ctx, 700 if ctx.quick else 7000)
     run_bitstream(ctx, 400 if ctx.quick else 4000)
+    run_as_vectored(ctx, 400 if ctx.quick else 6000)
     api_wrap_observations(ctx)
     ws, hs = range(1, 131), range(1, 21)
     lines = kernel_lines(ctx, ws, hs, 24, 2 if ctx.quick else 12)
